@@ -38,6 +38,7 @@ type op struct {
 	Kind   int
 	Class  int
 	Mode   int // addressing 0 pid 1 name 2 alias
+	Via    int // messages: 0 node API, 1 a sender process, 2 a sender process right after failed priority sends
 	Park   bool
 	Inject []op
 }
@@ -101,8 +102,27 @@ func (e *env) enqueue(o op, expectTotal int64) {
 	}
 	switch o.Kind {
 	case kMsg:
-		if err := e.node.SendWithPriority(to, payload, prioOf(o.Class)); err != nil {
-			e.t.Fatalf("send %d: %v", o.ID, err)
+		if o.Via == 0 {
+			if err := e.node.SendWithPriority(to, payload, prioOf(o.Class)); err != nil {
+				e.t.Fatalf("send %d: %v", o.ID, err)
+			}
+			break
+		}
+		// from a process: a plain Send for the normal class (it relies on the sender's own
+		// default priority), optionally after a priority send of that process that failed
+		var serr error
+		if err := kit.InProc(e.node, e.sender, func(a *kit.Actor) {
+			if o.Via == 2 {
+				a.SendWithPriority(gen.Atom("nobody-by-that-name"), "noise", gen.MessagePriorityMax)
+				a.SendWithPriority(gen.PID{Node: a.Node().Name(), ID: 1, Creation: 1}, "noise", gen.MessagePriorityHigh)
+			}
+			if o.Class == cMain {
+				serr = a.Send(to, payload)
+			} else {
+				serr = a.SendWithPriority(to, payload, prioOf(o.Class))
+			}
+		}); err != nil || serr != nil {
+			e.t.Fatalf("send %d from a process: %v %v", o.ID, err, serr)
 		}
 	case kReq:
 		caller, err := e.node.Spawn(kit.Factory(&kit.ActorConfig{Label: "caller", Probe: e.probe, Quiet: true}), gen.ProcessOptions{})
@@ -195,6 +215,9 @@ func genOps(t *rapid.T, kind int, n int, nextID *int, allowPark bool, parks *int
 				o.Class = rapid.IntRange(cUrgent, cMain).Draw(t, "class")
 			}
 			o.Mode = rapid.IntRange(0, 2).Draw(t, "mode")
+			if o.Kind == kMsg {
+				o.Via = rapid.SampledFrom([]int{0, 0, 1, 2}).Draw(t, "via")
+			}
 			if allowPark && *parks < 3 && rapid.IntRange(0, 7).Draw(t, "park") == 0 {
 				o.Park = true
 				*parks++
@@ -205,6 +228,12 @@ func genOps(t *rapid.T, kind int, n int, nextID *int, allowPark bool, parks *int
 			o.Class = cSystem
 		case kLog:
 			o.Class = cLog
+			// a log record may park the receiver too: what arrives meanwhile must be taken
+			// before the next log record
+			if allowPark && *parks < 3 && rapid.IntRange(0, 3).Draw(t, "park-log") == 0 {
+				o.Park = true
+				*parks++
+			}
 		}
 		ops = append(ops, o)
 	}
@@ -223,7 +252,7 @@ func flatten(ops []op) []op {
 func describe(ops []op) string {
 	var sb strings.Builder
 	for _, o := range ops {
-		fmt.Fprintf(&sb, "%d:k%dc%dm%d", o.ID, o.Kind, o.Class, o.Mode)
+		fmt.Fprintf(&sb, "%d:k%dc%dm%dv%d", o.ID, o.Kind, o.Class, o.Mode, o.Via)
 		if o.Park {
 			fmt.Fprintf(&sb, "P[%s]", describe(o.Inject))
 		}
@@ -257,7 +286,17 @@ func setup(t *rapid.T, kind int, probe *kit.Probe, all []op) (*env, func()) {
 	}
 	switch kind {
 	case 0:
-		e.pid, err = node.SpawnRegister("recv", kit.Factory(&kit.ActorConfig{Label: "recv", Probe: probe, Trap: true}), gen.ProcessOptions{})
+		e.pid, err = node.SpawnRegister("recv", kit.Factory(&kit.ActorConfig{Label: "recv", Probe: probe, Trap: true,
+			OnLog: func(a *kit.Actor, m gen.MessageLog) {
+				if m.Format == "verif-log %d" && len(m.Args) == 1 {
+					if id, ok := m.Args[0].(int); ok {
+						if ch, parked := e.entered[id]; parked {
+							close(ch)
+							<-e.release[id]
+						}
+					}
+				}
+			}}), gen.ProcessOptions{})
 	case 1:
 		child := kit.Factory(&kit.ActorConfig{Label: "child", Probe: probe, Quiet: true})
 		e.pid, err = node.SpawnRegister("recv", kit.SupFactory(&kit.SupConfig{Label: "recv", Probe: probe,
